@@ -187,6 +187,24 @@ def run_case(case) -> Result:
             outs.append(("exc", e))
     (rk, rv), (wk, wv) = outs
     head = "%s PyWrapper.%s" % (vworld.proto_label(proto), op)
+
+    def _names(x):
+        if isinstance(x, tuple) and len(x) >= 2 and isinstance(x[-2], str) and not isinstance(x[-1], (list, dict, tuple)):
+            yield x[-2]
+        elif isinstance(x, (list, tuple)):
+            for i in x:
+                yield from _names(i)
+        elif isinstance(x, dict):
+            for v in x.values():
+                yield from _names(v)
+
+    if rk == "ok":
+        known = {"Integer", "Counter", "Gauge", "Counter64", "OctetString", "Opaque", "ObjectIdentifier", "IpAddress",
+                 "TimeTicks", "Null", "NoSuchObject", "NoSuchInstance", "EndOfMibView"}
+        odd = [n for n in _names(rv) if n[:1].isupper() and n not in known and not n.replace(".", "").isdigit()]
+        if odd:
+            return Result("%s: the raw client returned a value of the undocumented type %s, which has no defined pythonisation" % (
+                head, odd[0]), False, sorted(classes))
     if rk == "exc" or wk == "exc":
         classes.add("raises")
         cls = sorted(classes)
